@@ -83,6 +83,9 @@ func ParseTimeOfDay(timeStr string) (time.Time, int, error) {
 	if err != nil {
 		return time.Time{}, 0, fmt.Errorf("invalid time string:%s, err:%s", timeStr, err.Error())
 	}
+	if len(timeStr) < 6 {
+		return time.Time{}, 0, fmt.Errorf("invalid time string:%s", timeStr)
+	}
 	ts, err := time.Parse("15:04:05", fmt.Sprintf("%s:%s:%s", timeStr[0:2], timeStr[2:4], timeStr[4:6]))
 	if err != nil {
 		return time.Time{}, 0, fmt.Errorf("time format invalid, err:%s", err.Error())
